@@ -959,6 +959,9 @@ def ap_match(a, b):
         # an access path (root, projs)
         if not (len(b) == 2 and isinstance(b[0], tuple) and b[0] and isinstance(b[0][0], str)):
             return False
+        # two locals are the same value only when they are the same local
+        if a[0][0] == "local" and b[0][0] == "local":
+            return a[0][1] == b[0][1] and (tuple(a[1]) == tuple(b[1]) or not a[1] or not b[1] or tuple(a[1][-len(b[1]):]) == tuple(b[1]) or tuple(b[1][-len(a[1]):]) == tuple(a[1]))
         # a cut-off leaf stands for any expression; projections applied to it must be the last ones of the other side
         if a[0][0] == "local" and (not a[1] or tuple(b[1][-len(a[1]):]) == tuple(a[1])):
             return True
